@@ -37,6 +37,7 @@ import (
 	"os"
 	"strconv"
 	"strings"
+	"sync"
 	"time"
 	"unicode/utf8"
 
@@ -57,6 +58,7 @@ type inflObs struct {
 }
 
 type endpoint struct {
+	fc        *fakeConn
 	queued    bool     // Execute only queues the job (as the poller path does); the harness runs the queue later
 	jobs      []func() // pending jobs
 	parser    *nbhttp.Parser
@@ -76,10 +78,22 @@ func (e *endpoint) reset() {
 	e.acts, e.delivered, e.dtypes, e.writes, e.infl, e.defl = nil, nil, nil, nil, nil, nil
 }
 
-type fakeConn struct{ e *endpoint }
+type fakeConn struct {
+	e    *endpoint
+	mu   sync.Mutex
+	gate chan struct{} // when set, Write waits until it is closed (a slow peer: the send queue backs up)
+}
 
 func (c *fakeConn) Read(b []byte) (int, error) { return 0, nil }
 func (c *fakeConn) Write(b []byte) (int, error) {
+	c.mu.Lock()
+	g := c.gate
+	c.mu.Unlock()
+	if g != nil {
+		<-g
+	}
+	c.mu.Lock()
+	defer c.mu.Unlock()
 	if tracker != nil {
 		tracker.CheckSlice(b, "the slice handed to Conn.Write")
 	}
@@ -136,6 +150,7 @@ func (nopWC) Write(p []byte) (int, error) { return len(p), nil }
 func (nopWC) Close() error                { return nil }
 
 type wsCfg struct {
+	sendq                int  // > 0: asynchronous writes through a send queue of this size (blocking-mode write path)
 	handoff              bool // client conn created by the upgrade hand-off of the HTTP client parser
 	client               bool
 	compress             bool
@@ -178,6 +193,7 @@ func newEndpoint(g wsCfg) *endpoint {
 		e.dtypes = append(e.dtypes, int(mt))
 	})
 	fc := &fakeConn{e: e}
+	e.fc = fc
 	// inline executor with nbio.Conn.Execute's contract: refuses once the conn is closed
 	inline := func(f func()) bool {
 		if e.closed {
@@ -206,10 +222,13 @@ func newEndpoint(g wsCfg) *endpoint {
 		e.parser = parser
 		return e
 	}
+	if g.sendq > 0 {
+		u.BlockingModSendQueueMaxSize = uint16(g.sendq)
+	}
 	if g.client {
-		e.ws = websocket.NewClientConn(u, fc, "", g.compress, false)
+		e.ws = websocket.NewClientConn(u, fc, "", g.compress, g.sendq > 0)
 	} else {
-		e.ws = websocket.NewServerConn(u, fc, "", g.compress, false)
+		e.ws = websocket.NewServerConn(u, fc, "", g.compress, g.sendq > 0)
 	}
 	e.ws.Execute = inline
 	return e
@@ -253,6 +272,8 @@ func errCode(err error) int {
 		return 8
 	case errors.Is(err, websocket.ErrFragmentsShouldNotHaveBinaryOrTextMessage):
 		return 9
+	case errors.Is(err, websocket.ErrMessageSendQuqueIsFull):
+		return 14
 	}
 	s := err.Error()
 	switch {
@@ -485,6 +506,10 @@ func exec(e *lp.Exec) {
 			e.Key(fmt.Sprintf("mask/%d/%d", len(data)/64, len(data)%8), len(data) > 0)
 		case (f[0] == "D" || f[0] == "H") && mode == "recv" && len(f) >= 2 && (f[0] == "H") == rc.g.handoff:
 			execD(e, rc, lg, f)
+		case f[0] == "XC" && mode == "recv" && len(f) >= 3 && rc.e.ws != nil:
+			execXC(e, rc, f)
+		case f[0] == "XF" && mode == "recv" && len(f) >= 5 && rc.e.ws != nil:
+			execXF(e, rc, f)
 		case f[0] == "X" && mode == "recv" && len(f) >= 3 && rc.e.ws != nil:
 			execX(e, rc, f)
 		case f[0] == "E" && mode == "recv":
@@ -685,6 +710,46 @@ func execX(e *lp.Exec, rc *recvCase, f []string) {
 	fmt.Fprintf(&rc.key, "X%d:%d,", op, ec)
 }
 
+// controlSendOracle: C15 "control frames above 125 bytes are refused on send", on the decoded wire of the implementation alone
+func controlSendOracle(e *lp.Exec, ep *endpoint, what string) {
+	for _, w := range ep.writes {
+		for _, fr := range refDecode(w) {
+			if fr.op >= 8 && fr.declared > 125 {
+				e.Oracle("c15-limit", "class=control-send %s: a control frame (opcode %d) with %d payload bytes was written", what, fr.op, fr.declared)
+			}
+		}
+	}
+}
+
+// XC <code> <reason spec>: Conn.WriteClose
+func execXC(e *lp.Exec, rc *recvCase, f []string) {
+	code := atoi(f[1])
+	reason := parseSpec(f[2])
+	ep := rc.e
+	ep.reset()
+	ec := errCode(ep.ws.WriteClose(code, string(reason)))
+	e.P("> XC %s %s keys=%s", f[1], f[2], keysOf(ep.writes))
+	e.P("XC cerr=%d cw=%s", ec, actsStr(ep.acts)) // fields of C15 only: the send-side limit is C15's clause
+	controlSendOracle(e, ep, fmt.Sprintf("WriteClose(%d, %d byte reason)", code, len(reason)))
+	if 2+len(reason) > 125 && (ec == 0 || len(ep.writes) > 0) {
+		e.Oracle("c15-limit", "class=control-send WriteClose with a %d byte reason (payload %d) err=%d writes=%d", len(reason), 2+len(reason), ec, len(ep.writes))
+	}
+	fmt.Fprintf(&rc.key, "XC%d:%d,", lenClass(len(reason)), ec)
+}
+
+// XF <opcode> <sendOpcode 0|1> <fin 0|1> <spec>: Conn.WriteFrame
+func execXF(e *lp.Exec, rc *recvCase, f []string) {
+	op := atoi(f[1])
+	data := parseSpec(f[4])
+	ep := rc.e
+	ep.reset()
+	ec := errCode(ep.ws.WriteFrame(websocket.MessageType(op), f[2] == "1", f[3] == "1", data))
+	e.P("> XF %s %s %s %s keys=%s", f[1], f[2], f[3], f[4], keysOf(ep.writes))
+	e.P("XF cerr=%d cw=%s", ec, actsStr(ep.acts)) // fields of C15 only: the send-side limit is C15's clause
+	controlSendOracle(e, ep, fmt.Sprintf("WriteFrame(op=%d, %d bytes)", op, len(data)))
+	fmt.Fprintf(&rc.key, "XF%d:%d:%d,", op, lenClass(len(data)), ec)
+}
+
 func implOutcome(rc *recvCase) string {
 	switch {
 	case rc.err != 0:
@@ -821,6 +886,14 @@ func newRT(f []string) *rtCase {
 	g := wsCfg{compress: comp, level: atoi(field(f, "level")), limit: atoi(field(f, "limit")), mf: atoi(field(f, "maxframe"))}
 	gc := g
 	gc.client = true
+	// sendq=<n> from=c|s: the sending side writes asynchronously through a bounded send queue, its conn is gated during a batch
+	if n := atoi(field(f, "sendq")); n > 0 {
+		if field(f, "from") == "s" {
+			g.sendq = n
+		} else {
+			gc.sendq = n
+		}
+	}
 	r := &rtCase{c: newEndpoint(gc), s: newEndpoint(g), limit: g.limit, style: field(f, "seg"),
 		rng: rand.New(rand.NewSource(int64(atoi(field(f, "seed")))))}
 	if field(f, "exec") == "queued" {
@@ -1035,6 +1108,14 @@ func (r *rtCase) execB(e *lp.Exec, lg *capLogger, f []string) {
 	}
 	var msgs []msg
 	werr := 0
+	async := snd.ws.IsAsyncWrite()
+	if async { // a slow peer: nothing leaves the conn while the batch is written, the send queue backs up
+		snd.fc.mu.Lock()
+		snd.fc.gate = make(chan struct{})
+		snd.fc.mu.Unlock()
+	}
+	var werrs []string
+	var refused []bool
 	for _, m := range strings.Split(f[2], ";") {
 		p := strings.SplitN(m, "/", 2)
 		if len(p) != 2 {
@@ -1042,11 +1123,28 @@ func (r *rtCase) execB(e *lp.Exec, lg *capLogger, f []string) {
 		}
 		mm := msg{typeOf(p[0]), parseSpec(p[1])}
 		msgs = append(msgs, mm)
-		if ec := errCode(snd.ws.WriteMessage(websocket.MessageType(mm.mt), mm.data)); ec != 0 && werr == 0 {
+		ec := errCode(snd.ws.WriteMessage(websocket.MessageType(mm.mt), mm.data))
+		if ec != 0 && werr == 0 {
 			werr = ec
 		}
+		werrs = append(werrs, strconv.Itoa(ec))
+		refused = append(refused, ec != 0)
+	}
+	if async {
+		snd.fc.mu.Lock()
+		close(snd.fc.gate)
+		snd.fc.gate = nil
+		snd.fc.mu.Unlock()
+		for t0 := time.Now(); snd.ws.VerifSendQueueLen() > 0 && time.Since(t0) < 3*time.Second; {
+			time.Sleep(200 * time.Microsecond)
+		}
+		time.Sleep(300 * time.Microsecond)
+		snd.fc.mu.Lock()
 	}
 	wire := bytes.Join(snd.writes, nil)
+	if async {
+		snd.fc.mu.Unlock()
+	}
 	keys, defl := keysOf(snd.writes), snd.deflAnn()
 	cuts := r.cuts(len(wire))
 	var cs []string
@@ -1075,7 +1173,7 @@ func (r *rtCase) execB(e *lp.Exec, lg *capLogger, f []string) {
 		snd.runJobs()
 	}
 	e.P("> B %s %s keys=%s defl=%s cuts=%s infl=%s bkeys=%s rkeys=%s", f[1], f[2], keys, defl, strings.Join(cs, ","), rcv.inflAnn(), bkeys, keysOf(snd.writes[nw:]))
-	e.P("B werr=%d wire=%s recv=%s rerr=%d back=%s berr=%d rcache=%d rmsglen=%d", werr, short(wire), actsStr(racts), rerr, actsStr(snd.acts), berr,
+	e.P("B werr=%d werrs=%s wire=%s recv=%s rerr=%d back=%s berr=%d rcache=%d rmsglen=%d", werr, strings.Join(werrs, ","), short(wire), actsStr(racts), rerr, actsStr(snd.acts), berr,
 		rcv.ws.VerifCacheLen(), rcv.ws.VerifMessageLen())
 	if lg.panics > 0 {
 		e.Oracle("c12-roundtrip", "class=panic Parse recovered from a panic")
@@ -1085,10 +1183,19 @@ func (r *rtCase) execB(e *lp.Exec, lg *capLogger, f []string) {
 	r.nt = true
 	e.Count("rt_ops", "batch")
 	// c12-roundtrip on the batch: the data messages, in order, each exactly once, type and payload unchanged
-	if !r.closed && werr == 0 {
+	queueOnly := true // the only refusals are "send queue full": then the accepted messages must arrive, the refused ones not
+	for i := range msgs {
+		if refused[i] && werrs[i] != "14" {
+			queueOnly = false
+		}
+	}
+	if !r.closed && (werr == 0 || (async && queueOnly)) {
 		var want []msg
 		ok := true
-		for _, m := range msgs {
+		for i, m := range msgs {
+			if refused[i] {
+				continue // every message whose WriteMessage returned an error delivers nothing and leaves the stream intact
+			}
 			if m.mt == 1 || m.mt == 2 {
 				want = append(want, m)
 				if (m.mt == 1 && !utf8.Valid(m.data)) || (r.limit > 0 && len(m.data) > r.limit) {
@@ -1096,6 +1203,16 @@ func (r *rtCase) execB(e *lp.Exec, lg *capLogger, f []string) {
 				}
 			} else if m.mt == 8 {
 				ok = false
+			}
+		}
+		if ok && rerr == 0 && len(refused) > 0 && (rcv.ws.VerifCacheLen() != 0 || rcv.ws.VerifMessageLen() != 0) {
+			// whole messages only were accepted: the receiver cannot be left in the middle of a frame or of a message
+			for i := range refused {
+				if refused[i] {
+					e.Oracle("c12-roundtrip", "class=stream-broken message %d of the batch was refused (err=%s) but part of it went out: the receiver is left inside a message (cache=%d msglen=%d)",
+						i, werrs[i], rcv.ws.VerifCacheLen(), rcv.ws.VerifMessageLen())
+					break
+				}
 			}
 		}
 		if ok {
